@@ -161,6 +161,11 @@ def rule_perunit(ctx):
         if len(rets) != 1 or not isinstance(rets[0].value, ast.Tuple) or len(rets[0].value.elts) != 2:
             raise AnalysisError("%s does not return (quantity, grid)" % name)
         qe, ge = rets[0].value.elts
+        if isinstance(qe, ast.Name) or isinstance(ge, ast.Name):
+            # reversed where they are computed and returned under their names
+            fl_ = Flow(f)
+            qe = fl_.resolve(qe, at=rets[0], depth=1, stop=tuple(f.params)) if isinstance(qe, ast.Name) else qe
+            ge = fl_.resolve(ge, at=rets[0], depth=1, stop=tuple(f.params)) if isinstance(ge, ast.Name) else ge
         kq, bq = _reversal(qe)
         kg, bg = _reversal(ge)
         if kq is None or kg is None:
